@@ -477,6 +477,8 @@ structure Facts where
   defaultDstIdx : IExpr           -- default: data[n.findex+i]
   nestedReadIdx : IExpr           -- consumer of nested call results: ind := c.findex + j
   wrapFrameIsDefTypes : Bool      -- newFrame(f, len(def.types), …)
+  wrapFramePerCall : Bool         -- … and that newFrame call is INSIDE the function literal given to reflect.MakeFunc
+  getFuncFramePerCall : Bool      -- getFunc: fr2 := newFrame(…) inside its reflect.MakeFunc literal
   wrapArgBase : IExpr             -- d = d[numRet:]  (base = numRet)
   wrapRcvrShift : Nat             -- d = d[numRet+1:]
   wrapResLo : Nat                 -- fr.data[lo:hi]
@@ -656,5 +658,58 @@ def applyFn (f : Facts) (env : Nat → FnDef) (host : Nat → List Rep → List 
   | n + 1, .node id, args => innerCall (env id) (applyFn f env host n) args
   | _ + 1, .native id, args => host id args
   | _ + 1, _, _ => []
+
+/-! ## 8. One wrapper value, several invocations
+
+  A wrapper value may be invoked again while one of its own invocations is still active (a stored callback that re-enters
+  itself through the host). `ReFn` is a function whose body runs `pre`, makes ONE nested invocation of the same wrapper
+  (unless it is at the last level: `leaf`) and then runs `post` on ITS frame and the nested results. `perCall` is the fact
+  "the frame is allocated inside the reflect.MakeFunc closure"; with `perCall = false` all invocations of the value share
+  one frame, which every invocation re-initialises. -/
+
+structure ReFn where
+  numRet : Nat
+  params : List PKind
+  nLocals : Nat
+  pre : List Rep → List Rep               -- up to the nested call
+  post : List Rep → List Rep → List Rep    -- frame, results of the nested call ↦ frame
+  leaf : List Rep → List Rep               -- the innermost level makes no call
+
+def ReFn.frameLen (d : ReFn) : Nat := d.numRet + d.params.length + d.nLocals
+
+/-- `d[i] = reflect.New(t).Elem()` for every cell, then the arguments behind the result cells -/
+def ReFn.init (d : ReFn) (args : List Rep) : List Rep :=
+  fillArgs true (List.replicate d.frameLen Rep.nil) d.numRet d.params args
+
+/-- nested invocations of ONE wrapper value, outermost first; `shared` is the value's frame when `perCall = false`.
+    Returns the results of the outermost invocation and the shared frame afterwards. -/
+def runLevels (perCall : Bool) (d : ReFn) : List (List Rep) → List Rep → List Rep × List Rep
+  | [], sh => ([], sh)
+  | [args], sh =>
+    let fr := d.leaf (d.init args)
+    (fr.take d.numRet, if perCall then sh else fr)
+  | args :: rest, sh =>
+    let fr := d.pre (d.init args)
+    let r := runLevels perCall d rest (if perCall then sh else fr)
+    -- after the nested invocation returned, this invocation goes on with ITS frame — or with the shared one
+    let frNow := if perCall then fr else r.2
+    let fr' := d.post frNow r.1
+    (fr'.take d.numRet, if perCall then sh else fr')
+
+/-- the contract: every level has its own activation -/
+def specLevels (d : ReFn) : List (List Rep) → List Rep
+  | [] => []
+  | [args] => (d.leaf (d.init args)).take d.numRet
+  | args :: rest => (d.post (d.pre (d.init args)) (specLevels d rest)).take d.numRet
+
+/-- Sum(n) = n + Sum(n-1) through the host: cell 0 the result, cell 1 the parameter n -/
+def sumFn : ReFn :=
+  { numRet := 1, params := [.plain], nLocals := 0,
+    pre := fun fr => fr,
+    post := fun fr r =>
+      match fr.getD 1 .nil, r.headD .nil with
+      | .int n, .int s => fr.set 0 (.int (n + s))
+      | _, _ => fr,
+    leaf := fun fr => fr.set 0 (.int 0) }
 
 end YaegiVerif.Boundary
